@@ -35,8 +35,11 @@ def run(ctx):
         lambda: te.generate(ctx, sd, "GenGate", te.gen_consts(["write", "snapshot", "gate", "delete", "reopen", "crash"], dele=3, crash=2, comp=0), num=6 * n),
         lambda: te.generate(ctx, sd, "GenWindow", te.gen_consts(["write", "gate", "delete"], dele=3, crash=0, comp=0, genlen=8), num=12 * n, variants=1),
         lambda: te.generate(ctx, sd, "GenPartial", te.gen_consts(["write", "snapshot", "delete"], dele=3, crash=0, comp=0, w=5, genlen=8), num=24 * n, variants=1),
+        # tombstones of one file whose ranges share exactly one bound (open-ended / same start or same end), then reopen
+        lambda: te.generate_shared_bound(ctx, sd, "GenBounds", te.gen_consts(["write", "snapshot", "delete", "effdel", "reopen"], dele=4, crash=0, comp=0, w=3, snap=2, genlen=9),
+                                         num=60 * n, keep=14 * n, need=6),
         lambda: te.generate(ctx, sd, "GenDelComp", te.gen_consts(["write", "snapshot", "compact", "delete"], dele=3, crash=0, w=5, snap=4), num=8 * n),
-    ], max_workers=5)
+    ], max_workers=6)
     behs = te.known_behaviours(ctx) + [b for g in gens for b in g]
     acts, f1, f14 = te.stats(behs)
     ndel = sum(v for k, v in acts.items() if k.startswith("delete"))
